@@ -368,6 +368,11 @@ Section TB.
   Qed.
 End TB.
 
+(** [tb_ready] (side condition of the time_until_available theorems) holds in every reachable
+    state, for every later instant: [tb_wf] is preserved by runs ([wf_run]) and implies it. *)
+Lemma tb_wf_ready (p : tbp Qops) B s lo now : tb_wf B s lo -> (lo <= now)%Z -> tb_ready s now.
+Proof. intros (H0 & _ & Hl) H. split; [exact H0|]. destruct (tb_last s); [lia|exact I]. Qed.
+
 (** The hypotheses are satisfiable, and the theorems say something on a concrete run:
     capacity 2, rate 1/s, four acquires at t = 0, 0, 0, 1 s. *)
 Example tb_example :
